@@ -572,6 +572,118 @@ def r20_2(rep: Report, cls: ast.ClassDef) -> None:
                 rep.fail(rid, construct, key, why, st)
 
 
+def r20_9(rep: Report, cls: ast.ClassDef) -> None:
+    """R20.9  what read / readall / peek hand back is a byte string on every path, also when nothing is left: an
+    in-memory byte stream returns b'' at its end.  A text literal (`''`, `r''`) compares unequal to b'' and cannot
+    be concatenated with the bytes read before (TypeError in a caller that accumulates reads)."""
+    rid = 'R20.9'
+    n = 0
+    for name in ('read', 'readall', 'peek'):
+        m = find_func(cls, name)
+        if m is None:
+            continue
+        fn = find_func(cls, name, raw=True) or m
+        construct = f'{BR}::BufferedReader.{name}'
+        for r_ in [x for x in ast.walk(fn) if isinstance(x, ast.Return) and x.value is not None]:
+            v = r_.value
+            if isinstance(v, ast.Constant):
+                n += 1
+                if isinstance(v.value, bytes):
+                    rep.ok(rid, construct, f'return {norm(v)}')
+                else:
+                    rep.fail(rid, construct, f'return {norm(v)}',
+                             f'`{name}` returns the {type(v.value).__name__} literal `{norm(v)}` where nothing is left to read: an '
+                             "in-memory byte stream returns b'' - the value compares unequal to b'' and `data + reader.read(n)` "
+                             'raises TypeError at the end of the window', r_)
+    if n == 0:
+        rep.ok(rid, f'{BR}::BufferedReader', 'no literal is returned')
+
+
+def r20_8(rep: Report, cls: ast.ClassDef) -> None:
+    """R20.8  seek(offset, whence) is the file-like contract over the window: before clamping, the new position is
+    `offset` (SEEK_SET), `pos + offset` (SEEK_CUR) or `size + offset` (SEEK_END) - the *argument*, not the
+    window's own start `self.offset`, which is a file position.  Each assignment that is reached only under one
+    of the whence tests and flows into self.pos is read as a linear form (locals written out per path)."""
+    from ..core import lin_atoms
+    from ..flow import Disjunctive, Flow
+    from ..pathcond import PathCond, entails as pc_entails, sym_values
+    rid = 'R20.8'
+    fn = need(find_func(cls, 'seek'), f'{BR}::BufferedReader.seek')
+    construct = f'{BR}::BufferedReader.seek'
+    params = [a.arg for a in fn.args.args if a.arg != 'self']
+    if len(params) < 2:
+        raise AnalysisError('BufferedReader.seek: (offset, whence) parameters not found')
+    off, wh = params[0], params[1]
+    kinds = {'SEEK_SET': ('0', 'io.SEEK_SET', 'os.SEEK_SET'), 'SEEK_CUR': ('1', 'io.SEEK_CUR', 'os.SEEK_CUR'),
+             'SEEK_END': ('2', 'io.SEEK_END', 'os.SEEK_END')}
+    # locals that flow into self.pos
+    flows = {'self.pos'}
+    for _ in range(3):
+        for a in ast.walk(fn):
+            if isinstance(a, (ast.Assign, ast.AugAssign)):
+                tg = a.targets[0] if isinstance(a, ast.Assign) else a.target
+                if norm(tg) in flows:
+                    flows |= {x.id for x in ast.walk(a.value) if isinstance(x, ast.Name) and x.id not in (off, wh)}
+    upd, resolve = sym_values(max_len=300)
+    seen: dict[str, list] = {k: [] for k in kinds}
+    # only what is written inside an arm of the whence chain (the clamp that follows is R20.3's)
+    in_arm: set[int] = set()
+    for i_ in ast.walk(fn):
+        if isinstance(i_, ast.If) and any(isinstance(x, ast.Name) and x.id == wh for x in ast.walk(i_.test)):
+            # the statement that leaves the arm's result: the last top-level assignment to something that flows
+            # into self.pos (what precedes it - a size lookup, a temporary - is written out when it is resolved)
+            last = [b_ for b_ in i_.body if isinstance(b_, (ast.Assign, ast.AugAssign))
+                    and norm(b_.targets[0] if isinstance(b_, ast.Assign) else b_.target) in flows
+                    and norm(b_.targets[0] if isinstance(b_, ast.Assign) else b_.target) != 'self.size']
+            if last:
+                in_arm.add(id(last[-1]))
+            # an arm that finishes through seek itself: `return self.seek(<target>, SEEK_SET)`
+            for b_ in i_.body:
+                if isinstance(b_, ast.Return) and isinstance(b_.value, ast.Call) and call_name(b_.value) == 'self.seek' \
+                        and len(b_.value.args) == 2 and norm(b_.value.args[1]) in kinds['SEEK_SET']:
+                    in_arm.add(id(b_))
+
+    def on_stmt(st, states):
+        if id(st) not in in_arm:
+            return
+        if isinstance(st, ast.Return):
+            tg = None
+        else:
+            tg = st.targets[0] if isinstance(st, ast.Assign) else st.target
+            if norm(tg) not in flows or norm(tg) == 'self.size':
+                return
+        for x in states:
+            for k, names in kinds.items():
+                if any(pc_entails(x[0], ('atom', f'{wh} == {n_}')) is True for n_ in names):
+                    val = st.value.args[0] if tg is None else st.value if isinstance(st, ast.Assign) else \
+                        ast.BinOp(left=tg, op=st.op, right=st.value)
+                    if any(isinstance(c_, ast.Call) and (call_name(c_) or '') in ('max', 'min') for c_ in ast.walk(val)):
+                        continue            # the clamp itself
+                    seen[k].append((st, lin_atoms(resolve(x, val))))
+    Flow(Disjunctive(PathCond(upd=upd), cap=256), on_stmt=on_stmt).run(fn, [PathCond.initial()])
+    for k, sites in seen.items():
+        if not sites:
+            raise AnalysisError(f'BufferedReader.seek: no position is computed under `{wh} == {k}`')
+        bad = None
+        for st, form in sites:
+            rest = {a_: v_ for a_, v_ in form.items() if a_ != off}
+            ok_ = form.get(off) == 1 and (
+                (k == 'SEEK_SET' and not rest) or
+                (k == 'SEEK_CUR' and rest == {'self.pos': 1}) or
+                (k == 'SEEK_END' and len(rest) == 1 and list(rest.values()) == [1] and 'size' in next(iter(rest)).lower()))
+            if not ok_:
+                bad = (st, form)
+        if bad is None:
+            rep.ok(rid, construct, k, {'SEEK_SET': f'{off}', 'SEEK_CUR': f'pos + {off}', 'SEEK_END': f'size + {off}'}[k])
+        else:
+            shown = ' '.join(f'{"+" if v_ > 0 else "-"} {a_}' for a_, v_ in sorted(bad[1].items()))
+            rep.fail(rid, construct, k,
+                     f'under {k} the position becomes `{shown[:120]}` before clamping; it must be '
+                     + {'SEEK_SET': f'`{off}`', 'SEEK_CUR': f'`self.pos + {off}`', 'SEEK_END': f'`<window size> + {off}`'}[k]
+                     + f' - the `{off}` argument of seek(), in window coordinates (self.offset is the position of the window in '
+                     'the file, not a seek distance)', bad[0])
+
+
 def r20_3(rep: Report, cls: ast.ClassDef) -> None:
     rid = 'R20.3'
     fn = need(_prep(find_func(cls, 'seek')), f'{BR}::BufferedReader.seek')
@@ -1052,9 +1164,13 @@ def analyse(rep: Report) -> None:
     rep.rule('R20.6', 'the optional window size is tested with `is None`, never by truthiness', floor=3)
     rep.rule('R20.7', 'a bucket is filled from the file position bucket + offset on every path', floor=1)
     rep.rule('R20.5', 'windowing call sites pass pos and size of one segment', floor=3)
+    rep.rule('R20.9', 'read / readall / peek return byte strings, also at the end of the window', floor=1)
+    rep.rule('R20.8', 'seek moves to offset / pos + offset / size + offset before clamping', floor=3)
     r20_1(rep, cls)
     r20_2(rep, cls)
     r20_3(rep, cls)
+    r20_8(rep, cls)
+    r20_9(rep, cls)
     r20_4(rep, cls)
     r20_6(rep, cls)
     r20_7(rep, cls)
